@@ -577,7 +577,25 @@ def confirm_and_report(prop, res, known, known_ids):
     """replay every failure 3x through the plain replay path; returns (violations, known_hits, discarded)"""
     violations, discarded = [], []
     rdir = os.path.join(VERIF, "replays", prop)
+    seen_fail = set()
+    uniq = []
     for f in res["failures"]:
+        key = json.dumps([f.get("kind"), f.get("sub"), (f.get("failure") or {}).get("rec"), f.get("artifact")], sort_keys=True, default=str)
+        if key in seen_fail:
+            continue
+        seen_fail.add(key)
+        uniq.append(f)
+    # at most a handful of hangs are confirmed (each costs 3 x the hang budget); the rest are recorded as notes
+    nh = 0
+    kept = []
+    for f in uniq:
+        if f.get("kind") == "hang":
+            nh += 1
+            if nh > 3:
+                discarded.append(dict(sub=f.get("sub"), why="further hang candidates not replayed (3 already confirmed or discarded)"))
+                continue
+        kept.append(f)
+    for f in kept:
         if f["kind"] == "harness":
             # a shard that died without leaving a case: cannot be replayed; report as broken harness, exit 2
             discarded.append(dict(sub=f["sub"], why="harness failure: " + f.get("msg", "")[:800]))
@@ -681,6 +699,11 @@ def main():
                     print("VIOLATION property=%s replay=%s" % (prop, replay))
                     return 1
                 return 0
+        # custom units replay through their own module: python3 units/<module>.py --replay <file>
+        for unit in spec["units"]:
+            if unit["kind"] == "custom":
+                r = subprocess.run([sys.executable, os.path.join(VERIF, "units", unit["module"] + ".py"), "--replay", replay])
+                return r.returncode
         log("no unit of %s owns %s" % (prop, replay))
         return 2
 
